@@ -262,6 +262,60 @@ impl Stats {
         }
     }
 
+    pub fn absorb_r(&mut self, plan: &Plan, rh: &crate::reporters::RHistory) {
+        self.runs += 1;
+        *self.ends.entry(format!("{:?}", rh.end.unwrap_or(RunEnd::Finished))).or_insert(0) += 1;
+        self.sim_ns += u128::from(rh.stats.max_clock_ns);
+        self.events += rh.input.len() as u64;
+        self.attempts += rh.shape.attempts as u64;
+        self.bump("sink_short_write", rh.short_writes);
+        self.bump("sink_interrupted", rh.interrupts);
+        self.bump("parser_error", rh.shape.parse_errors as u64);
+        self.bump("failed_attempt", rh.shape.failed_attempts as u64);
+        self.bump("skipped_attempt", rh.shape.skipped_attempts as u64);
+        self.bump("retried_attempt", rh.shape.retried_attempts as u64);
+        self.bump("hook_failure", rh.shape.hook_failures as u64);
+        self.bump(&format!("reporter:{}", rh.reporter), 1);
+        let mut hsh = core::FNV_INIT;
+        let mut open = 0u64;
+        let mut max_open = 0u64;
+        for e in &rh.input {
+            core::fnv(&mut hsh, e.k.tag().as_bytes());
+            if let Some(s) = &e.scenario {
+                core::fnv(&mut hsh, s.as_bytes());
+            }
+            match e.k {
+                K::ScStarted => {
+                    open += 1;
+                    max_open = max_open.max(open);
+                }
+                K::ScFinished => open = open.saturating_sub(1),
+                _ => {}
+            }
+        }
+        core::fnv(&mut hsh, rh.reporter.as_bytes());
+        self.max_in_flight = self.max_in_flight.max(max_open);
+        if max_open >= 2 {
+            self.overlapped_runs += 1;
+        }
+        let faulty = rh.shape.failed_attempts + rh.shape.skipped_attempts + rh.shape.parse_errors + rh.shape.hook_failures > 0;
+        if max_open >= 2 || faulty || rh.short_writes + rh.interrupts > 0 {
+            self.nontrivial_hashes.insert(hsh);
+        } else {
+            self.trivial_runs += 1;
+        }
+        self.states.insert(format!("reporter={} verbosity={} open={} sinkfaults={}", rh.reporter, rh.verbosity, max_open.min(8), rh.short_writes + rh.interrupts > 0));
+        if self.samples.len() < 3 && rh.input.len() > 8 {
+            self.samples.push(serde_json::json!({
+                "plan_seed": plan.seed,
+                "reporter": rh.reporter,
+                "shape": rh.shape,
+                "first_input_events": rh.input.iter().take(30).map(crate::record::Ev::short).collect::<Vec<_>>(),
+                "report_head": rh.output.chars().take(600).collect::<String>(),
+            }));
+        }
+    }
+
     pub fn absorb_b(&mut self, plan: &Plan, bh: &crate::runb::BHistory) {
         // reuse the world-A accounting over the raw stream
         let h = History {
@@ -327,8 +381,9 @@ pub fn world_of(prop: &str) -> char {
     match prop {
         "C02" | "C03" | "C04" | "C05" | "C06" | "C07" | "C08" | "C09" | "C10" => 'A',
         "C20" => 'T',
-        "C01" | "C14" => 'B',
+        "C01" => 'B',
         "C11" | "C12" | "C13" => 'C',
+        "C14" => 'R',
         _ => 'C',
     }
 }
@@ -338,6 +393,7 @@ pub struct Executed {
     pub history: Option<History>,
     pub chistory: Option<crate::worldc::CHistory>,
     pub bhistory: Option<crate::runb::BHistory>,
+    pub rhistory: Option<crate::reporters::RHistory>,
 }
 
 impl Executed {
@@ -345,7 +401,7 @@ impl Executed {
         match (&self.history, &self.chistory) {
             (Some(h), _) => h.digest(),
             (_, Some(c)) => c.digest(),
-            _ => self.bhistory.as_ref().map_or(0, crate::runb::BHistory::digest),
+            _ => self.bhistory.as_ref().map(crate::runb::BHistory::digest).or_else(|| self.rhistory.as_ref().map(crate::reporters::RHistory::digest)).unwrap_or(0),
         }
     }
 }
@@ -390,7 +446,7 @@ pub fn execute_t_inproc(prop: &str, plan: &Rc<Plan>) -> Result<Executed, String>
             oracle_a::run_oracle(prop, &a)
         }
     };
-    Ok(Executed { violations, history: Some(h), chistory: None, bhistory: None })
+    Ok(Executed { violations, history: Some(h), chistory: None, bhistory: None, rhistory: None })
 }
 
 #[cfg(not(feature = "tracing"))]
@@ -412,6 +468,31 @@ pub fn decorate_for_world_b(_prop: &str, plan: &mut Plan) {
     }
 }
 
+/// Chooses reporter, options and sink faults of a reporter-world plan.
+pub fn decorate_for_world_r(plan: &mut Plan) {
+    let mut r = crate::core::Rng::new(plan.seed ^ 0x4E90);
+    plan.writer.stack = r.below(crate::reporters::REPORTERS.len() as u64) as u32;
+    plan.writer.sink_seed = r.next_u64();
+    plan.writer.verbosity = r.below(3) as u8;
+    plan.writer.report_time = r.chance(1, 2);
+    plan.writer.show_output = r.chance(1, 2);
+    if r.chance(1, 2) {
+        plan.writer.short_write_pm = *r.pick(&[50u32, 300, 800]);
+        plan.writer.eintr_pm = *r.pick(&[0u32, 50, 300]);
+    }
+}
+
+/// Runs one reporter over a synthetic history and evaluates C14.
+pub fn execute_r(prop: &str, plan: &Rc<Plan>) -> Result<Executed, String> {
+    if prop != "C14" {
+        return Err(format!("harness: {prop} is not a reporter-world property"));
+    }
+    let rh = crate::reporters::run_reporter(plan)?;
+    let mut v = Vec::new();
+    crate::reporters::c14(&rh, &mut v);
+    Ok(Executed { violations: v, history: None, chistory: None, bhistory: None, rhistory: Some(rh) })
+}
+
 /// Runs `plan` in world B and evaluates `prop`'s oracle.
 pub fn execute_b(prop: &str, plan: &Rc<Plan>) -> Result<Executed, String> {
     let bh = crate::runb::run_world_b(plan)?;
@@ -420,7 +501,7 @@ pub fn execute_b(prop: &str, plan: &Rc<Plan>) -> Result<Executed, String> {
         "C01" => crate::oracle_b::c01(plan, &bh, &mut v),
         _ => return Err(format!("harness: {prop} is not a world-B property")),
     }
-    Ok(Executed { violations: v, history: None, chistory: None, bhistory: Some(bh) })
+    Ok(Executed { violations: v, history: None, chistory: None, bhistory: Some(bh), rhistory: None })
 }
 
 /// Runs `plan` in world C and evaluates `prop`'s oracle.
@@ -434,7 +515,7 @@ pub fn execute_c(prop: &str, plan: &Rc<Plan>) -> Result<Executed, String> {
         "C13" => crate::worldc::c13(plan, &ch, &mut v),
         _ => return Err(format!("harness: {prop} is not a world-C property")),
     }
-    Ok(Executed { violations: v, history: None, chistory: Some(ch), bhistory: None })
+    Ok(Executed { violations: v, history: None, chistory: Some(ch), bhistory: None, rhistory: None })
 }
 
 /// Runs `plan` in world A and evaluates `prop`'s oracle.
@@ -462,7 +543,7 @@ pub fn execute_a(prop: &str, plan: &Rc<Plan>) -> Result<Executed, String> {
         }
         v
     };
-    Ok(Executed { violations, history: Some(h), chistory: None, bhistory: None })
+    Ok(Executed { violations, history: Some(h), chistory: None, bhistory: None, rhistory: None })
 }
 
 #[derive(Clone, Debug, Serialize, Deserialize)]
@@ -554,7 +635,20 @@ pub fn make_replay(
             .history
             .as_ref()
             .map(|h| h.events.iter().map(crate::record::Ev::short).collect())
-            .unwrap_or_else(|| e.chistory.as_ref().map(|c| c.input.iter().map(crate::record::Ev::short).collect()).unwrap_or_default())),
+            .unwrap_or_else(|| {
+                e.chistory
+                    .as_ref()
+                    .map(|c| c.input.iter().map(crate::record::Ev::short).collect())
+                    .or_else(|| {
+                        e.rhistory.as_ref().map(|r| {
+                            let mut v: Vec<String> = r.input.iter().map(crate::record::Ev::short).collect();
+                            v.push(format!("--- {} report ---", r.reporter));
+                            v.extend(r.output.lines().take(200).map(str::to_owned));
+                            v
+                        })
+                    })
+                    .unwrap_or_default()
+            })),
         gherkin: min.features.iter().map(crate::plan::FeatureSpec::gherkin).collect(),
     })
 }
